@@ -1,6 +1,7 @@
 import ComposeVerif.Lemmas.TravInvS
 import ComposeVerif.Lemmas.TravLive
 import ComposeVerif.Lemmas.TravSkip
+import ComposeVerif.Lemmas.TravRank
 import ComposeVerif.Neg.C13
 import ComposeVerif.Lemmas.AuditCmd  -- makes sure the audit command is built with this module (the check does not build it itself)
 /-!
@@ -24,11 +25,11 @@ theorem once {g : Graph} {lim : Option Nat} (hg : GraphOK g) {s : St} (h : Reach
   have hI := (reach_inv hg h).l
   exact ⟨hI.startsNodup, hI.finishesNodup, fun v hv => ⟨hI.startedVerts v hv, (hI.startedWhere v hv).1⟩⟩
 
-/-- **once (exactly), on success**: when `walk` has returned without error, every vertex that is not skipped
-(all of them without roots; the roots and their transitive dependents otherwise) has been entered and has returned;
-with `once` this is "exactly once". -/
+/-- **once (exactly), on success**: when `walk` has returned without error (and the caller did not cancel its own
+context meanwhile), every vertex that is not skipped (all of them without roots; the roots and their transitive
+dependents otherwise) has been entered and has returned; with `once` this is "exactly once". -/
 theorem exactly_once_on_success {g : Graph} {lim : Option Nat} (hg : GraphOK g) {s : St} (h : Reach g lim s)
-    (ht : terminal s) (hok : s.firstErr = none) :
+    (ht : terminal s) (hok : s.firstErr = none) (hext : s.extCancelled = false) :
     ∀ v ∈ g.verts, g.skip v = false → v ∈ starts s.log ∧ v ∈ finishes s.log := by
   have hI := reach_inv hg h
   intro v hv hk
@@ -37,7 +38,7 @@ theorem exactly_once_on_success {g : Graph} {lim : Option Nat} (hg : GraphOK g) 
     have := hI.e.firstErrLast
     rw [hok] at this
     cases hx : s.errExits with
-    | nil => rfl
+    | nil => simp [hext]
     | cons a r =>
       rw [hx] at this
       cases hl : (a :: r).getLast? with
@@ -74,34 +75,27 @@ theorem claimed_after_deps_visited {g : Graph} {lim : Option Nat} (hg : GraphOK 
     (v : V) (hv : s.status v ≠ .absent) : ∀ d ∈ g.pre v, s.status d = .visited :=
   (reach_inv hg h).l.depsVisited v (.inr hv)
 
-/-- **bounded (partial)**: as long as no visitor error has been handed to the errgroup, at most `n` visitor
-callbacks are in progress under `WithMaxConcurrency(n)`.  (Without the hypothesis the statement is false on the
-unchanged tree: `Neg/C13.lean`.) -/
-theorem bounded_partial {g : Graph} {n : Nat} (hg : GraphOK g) {s : St} (h : Reach g (some n) s)
-    (hnc : s.cancelled = false) : running s ≤ n := by
+/-- **bounded**: never more than `n` visitor callbacks in progress under `WithMaxConcurrency(n)` — for every schedule,
+error or not.  (Full strength since the repair of DESIGN §10 #12: the coordinator keeps its errgroup slot until the
+caller has left the extremities loop; the behaviour of the code before the repair is kept in `Neg/C13.lean`.) -/
+theorem bounded {g : Graph} {n : Nat} (hg : GraphOK g) {s : St} (h : Reach g (some n) s) : running s ≤ n := by
   have hI := reach_inv hg h
+  have h2 := List.length_filter_le (fun (p : V × WPc) => p.2 == WPc.running) s.workers
   cases ha : s.cAlive with
   | true =>
     have := hI.s.semLe n rfl
     simp only [sem, ha, if_true] at this
-    have h2 := List.length_filter_le (fun (p : V × WPc) => p.2 == WPc.running) s.workers
     unfold running; omega
   | false =>
-    rcases hI.s.cDeadWhy ha with hc | hall
-    · rw [hnc] at hc; cases hc
+    rcases hI.s.cDeadBound ha with hall | ⟨_, hlen⟩
     · have : s.workers.filter (fun p => p.2 == WPc.running) = [] := by
         rw [List.filter_eq_nil_iff]
         rintro ⟨v, pc⟩ hm
         obtain ⟨e, rfl⟩ := hI.a.handedPc v pc (.inr (hall v (hI.b.wkVerts v pc hm))) hm
         simp
       unfold running; rw [this]; exact Nat.zero_le _
-
-/-- **bounded (always)**: never more than `n + 1` visitor callbacks at once, error or not. -/
-theorem bounded_plus_one {g : Graph} {n : Nat} (hg : GraphOK g) {s : St} (h : Reach g (some n) s) :
-    running s ≤ n + 1 := by
-  have := (reach_inv hg h).s.semLe n rfl
-  have h2 := List.length_filter_le (fun (p : V × WPc) => p.2 == WPc.running) s.workers
-  unfold running; unfold sem at this; omega
+    · have := hlen n rfl
+      unfold running; omega
 
 /-- **deadlock-free**: every reachable state that is not terminal has an enabled step — in particular a worker
 that finished is never forgotten by the coordinator (no lost wake-up), whatever the completion order. -/
@@ -155,11 +149,12 @@ theorem returns_after_all_visits {g : Graph} {lim : Option Nat} (hg : GraphOK g)
 
 /-- **result = first error**: the value `walk` returns (`firstErr`) is `none` exactly when no failing visit was
 handed to the errgroup, otherwise it is the *first* such visit, and that visit's callback really returned an error;
-at termination `none` means no visitor failed at all. -/
+the group's context is cancelled exactly by such an error or by the caller (`extCancel`); at termination `none` means
+no visitor failed at all. -/
 theorem result_first_error {g : Graph} {lim : Option Nat} (hg : GraphOK g) {s : St} (h : Reach g lim s) :
     s.firstErr = s.errExits.getLast? ∧
     (∀ v, s.firstErr = some v → Ev.finish v true ∈ s.log) ∧
-    (s.cancelled = true ↔ s.firstErr ≠ none) ∧
+    (s.cancelled = true ↔ s.firstErr ≠ none ∨ s.extCancelled = true) ∧
     (terminal s → s.firstErr = none → ∀ v, Ev.finish v true ∉ s.log) := by
   have hI := reach_inv hg h
   have hfl := hI.e.firstErrLast
@@ -227,8 +222,16 @@ example : (runL diamond none (init diamond)
     (fun s => (decide (terminal s), s.firstErr, (starts s.log).reverse))
     = some (true, some 0, [0]) := by decide
 
-/-- the measure of `terminates` on the diamond: no schedule has more than 53 steps (the complete run above has 46) -/
-example : mu diamond (init diamond) = 53 ∧ diamondRun.length = 46 := by decide
+/-- why `exactly_once_on_success` needs `extCancelled = false`: if the caller cancels its own context the coordinator
+may leave, `walk` returns nil, and services 1, 2, 3 have never been visited (outside the property, inside the model) -/
+example : (runL diamond none (init diamond)
+    [.schedNext .M 0, .ready .M, .enter .M, .spawn .M, .schedEnd .M, .extCancel, .cCtxDone,
+     .wBegin 0, .wReturn 0 false, .wDone 0, .wSend 0, .wExit 0]).map
+    (fun s => (decide (terminal s), s.firstErr, s.extCancelled, (starts s.log).reverse))
+    = some (true, none, true, [0]) := by decide
+
+/-- the measure of `terminates` on the diamond: no schedule has more than 54 steps (the complete run above has 46) -/
+example : mu diamond (init diamond) = 54 ∧ diamondRun.length = 46 := by decide
 
 end CV.Trav
 
@@ -268,13 +271,13 @@ end CV.DepGraph
 namespace CV.Trav
 open CV.DepGraph (Reaches)
 
-/-- **root selection** (`WithRootNodesAndDown`): the visitor is called for a service iff no roots were given, or it is a
-root, or it transitively depends on a root.  `fuel` is the recursion bound of the model of `vertex.descendents`
-(`mkGraph` uses the number of services); it is immaterial as soon as the graph has a rank function below it, which
-every DAG on that many services has. -/
-theorem roots_select_dependents (deps : V → List V) (fuel : Nat) (after : List V) (v : V)
-    (rk : V → Nat) (hrk : ∀ v c, c ∈ deps v → rk c < rk v) (hfuel : ∀ v, rk v ≤ fuel) :
-    skipOf deps fuel after v = false ↔ after = [] ∨ v ∈ after ∨ ∃ r ∈ after, ∃ n, Reaches deps n v r := by
+/-- **root selection** (`WithRootNodesAndDown`): on an acyclic dependency graph the visitor is called for a service iff
+no roots were given, or it is a root, or it transitively depends on a root.  (`verts.length` is the recursion bound
+the model of `vertex.descendents` is run with.) -/
+theorem roots_select_dependents (deps : V → List V) (verts : List V) (after : List V) (v : V)
+    (hclosed : ∀ v ∈ verts, ∀ c ∈ deps v, c ∈ verts) (hacyc : ∀ v ∈ verts, ∀ n, ¬ Reaches deps n v v) (hv : v ∈ verts) :
+    skipOf deps verts.length after v = false ↔ after = [] ∨ v ∈ after ∨ ∃ r ∈ after, ∃ n, Reaches deps n v r := by
+  obtain ⟨rk, hrk, hle⟩ := rank_of_acyclic deps verts hclosed hacyc
   rw [skipOf_false_iff]
   constructor
   · rintro (h | h | ⟨r, hr, n, _, hn⟩)
@@ -284,7 +287,17 @@ theorem roots_select_dependents (deps : V → List V) (fuel : Nat) (after : List
   · rintro (h | h | ⟨r, hr, n, hn⟩)
     · exact .inl h
     · exact .inr (.inl h)
-    · exact .inr (.inr ⟨r, hr, n, Nat.le_trans (reaches_le_rank hrk hn) (hfuel v), hn⟩)
+    · have := acyclic_of_rank deps verts hclosed rk hrk hn hv
+      exact .inr (.inr ⟨r, hr, n, by have := hle v; omega, hn⟩)
+
+/-- **acyclic = ranked = accepted**: for a finite vertex set closed under the adjacency, "no closed walk" (what
+`checkCycle` decides) and "a rank function exists" (`GraphOK.rank`, the hypothesis of every traversal theorem above) are
+the same thing, and whatever `checkCycle` accepts has a rank function bounded by the number of vertices. -/
+theorem acyclic_ranked_accepted (adj : V → List V) (verts : List V) (hclosed : ∀ v ∈ verts, ∀ c ∈ adj v, c ∈ verts) :
+    ((∀ v ∈ verts, ∀ n, ¬ Reaches adj n v v) ↔ ∃ rk : V → Nat, ∀ v ∈ verts, ∀ c ∈ adj v, rk c < rk v) ∧
+    (CV.DepGraph.checkCycle verts adj = false →
+      ∃ rk : V → Nat, (∀ v ∈ verts, ∀ c ∈ adj v, rk c < rk v) ∧ ∀ v, rk v ≤ verts.length) :=
+  ⟨acyclic_iff_ranked adj verts hclosed, ranked_of_checkCycle_false adj verts hclosed⟩
 
 /-- non-vacuity: chain 2 → 1 → 0 (2 depends on 1 depends on 0), root 1: 0 is skipped, 1 and 2 are visited -/
 example : let deps : V → List V := fun v => if v = 2 then [1] else if v = 1 then [0] else []
